@@ -2,7 +2,7 @@
 # usage: with_patch.sh <patch.diff> <command...>
 # Applies a seeded change to /repo, runs the command, and always restores /repo.
 set -u
-patch="$1"; shift
+patch="$(realpath "$1")"; shift
 if [ -n "$(git -C /repo status --porcelain --untracked-files=no)" ]; then echo "/repo not clean" >&2; exit 3; fi
 git -C /repo apply "$patch" || { echo "patch does not apply" >&2; exit 3; }
 "$@"; rc=$?
